@@ -89,7 +89,7 @@ def m_port_direction(r, b):
     if not ps:
         return None
     p = r.choice(ps)
-    p.direction = r.choice([x for x in (sdn.IN, sdn.OUT, sdn.INOUT) if x is not p.direction])
+    p.direction = r.choice([x for x in (sdn.IN, sdn.OUT, sdn.INOUT, sdn.Port.Direction.UNDEFINED) if x is not p.direction])
     return "direction of port %s.%s" % (p.definition.name, p.name)
 
 
@@ -265,6 +265,37 @@ def plant_twins(rng, n):
     return k
 
 
+def plant_case_twins(rng, n):
+    """Siblings whose names differ only in letter case (legal: names are case-sensitive), the lower-case one first."""
+    k = 0
+    for d in defs_of(n):
+        if rng.random() < 0.5:
+            continue
+        for c in list(d.cables)[:2]:
+            t = c.name.upper() if c.name and c.name.upper() != c.name else None
+            if t and not any(x.name == t for x in d.cables):
+                try:
+                    # (same shape as its twin - a one-wire SCALAR net named like a bus bit, x[2], is outside the EDIF domain)
+                    t_ = d.create_cable(t, wires=len(c.wires) or 1, is_downto=c.is_downto, lower_index=c.lower_index)
+                    if len(c.wires) and not c.is_scalar:
+                        t_.is_scalar = False
+                    elif t.endswith("]"):
+                        d.remove_cable(t_)
+                        continue
+                    k += 1
+                except ValueError:
+                    pass
+        for c in list(d.children)[:1]:
+            t = c.name.upper() if c.name and c.name.upper() != c.name else None
+            if t and c.reference is not None and c.reference.is_leaf() and not any(x.name == t for x in d.children):
+                try:
+                    d.create_child(t, reference=c.reference)
+                    k += 1
+                except ValueError:
+                    pass
+    return k
+
+
 def m_property_value(r, b):
     insts = [c for d in defs_of(b) for c in d.children if "EDIF.properties" in c and c["EDIF.properties"]]
     if not insts:
@@ -434,6 +465,8 @@ def run_case(ctx, i, rng):
     n = gen_ir.generate(rng, profile="edif", ndefs=rng.randint(3, 7), share=0.5, max_children=4, outside=(i % 2 == 0))
     if plant_twins(rng, n):
         ctx.count("netlists_with_planted_same_named_twins")
+    if i % 4 in (1, 2):
+        ctx.count("siblings_differing_only_in_case", plant_case_twins(rng, n))
     if i % 3 == 2:
         # a definition built stand-alone under the EDIF policy and then added to this DEFAULT-policy netlist
         g = gen_ir.graft_foreign_policy_definition(rng, n, "DEFAULT")
